@@ -13,13 +13,18 @@
    64-bit truncation, multi-word writes, msb flag for negative digits), read back chunk by
    chunk exactly as the chunk processor reads them, ARE the signed digits of the arithmetic
    recoding, and no carry is left.
-   PARTIAL: the final assembly "msmInner = sum s_i P_i" from these parts, the smaller bucket
-   array of the last window, the choice of c / number of splits and the Montgomery flag are
-   tied by correspondence (per-c results and packed limbs compared through hooks);
+   C09_msm_inner assembles all of it: for every 2 <= c <= 64 (the implemented widths are
+   4..16, 20, 21), every list of points, every list of canonical scalars and either way of
+   processing the first chunk, msmInner (partitionScalars + per-chunk bucket method with the
+   smaller bucket array of the last window + chunk combination) returns sum_i s_i P_i.
+   PARTIAL: the choice of c / number of splits (any choice is correct by C09_msm_inner and
+   C09_split_sum; the cost model itself is compared by correspondence) and the Montgomery
+   flag of the scalars are tied by correspondence (per-c results and packed limbs compared
+   through hooks);
    termination of the channel protocol is C12/C20. *)
 From Coq Require Import ZArith List.
 From GoIpa Require Import Model.Alg Model.Pippenger Proofs.AlgLaws Proofs.IPAProofs
-  Proofs.PippengerProofs Proofs.MsmProofs Proofs.PartitionProofs.
+  Proofs.PippengerProofs Proofs.MsmProofs Proofs.PartitionProofs Proofs.MsmInner.
 Import ListNotations.
 Open Scope Z_scope.
 
@@ -91,7 +96,14 @@ Section C09.
   Theorem C09_split_sum : forall ps1 ds1 ps2 ds2, length ps1 = length ds1 ->
     msmzv fo go (ps1 ++ ps2) (ds1 ++ ds2) = gadd go (msmzv fo go ps1 ds1) (msmzv fo go ps2 ds2).
   Proof. exact (msmzv_app fo go GL). Qed.
+
+  (* the whole bucket method on the packed scalars written by partitionScalars *)
+  Theorem C09_msm_inner : forall c points ss split,
+    2 <= c <= 64 -> length points = length ss -> Forall (fun s => 0 <= s < 2 ^ 253) ss ->
+    msm_inner go c points (fst (partition_scalars c ss)) split = msmzv fo go points ss.
+  Proof. exact (msm_inner_spec fo go FL GL fofz_add fofz_mul fofz_1). Qed.
 End C09.
+Print Assumptions C09_msm_inner.
 Print Assumptions C09_process_chunk.
 Print Assumptions C09_running_sum.
 Print Assumptions C09_reduce_chunks.
